@@ -293,6 +293,8 @@ func (vc *VC) verifyFunction(fn *ssa.Function, con *Contract, pkg *packages.Pack
 		v := st.freshVal("p_"+p.Name(), p.Type())
 		fr.env[p] = v
 		fr.names[p.Name()] = nameEntry{V: v, T: p.Type()}
+		// entry value under the name <param>0 (Gobra style): parameters can be reassigned or shadowed by a local of the same name
+		fr.names[p.Name()+"0"] = nameEntry{V: v, T: p.Type()}
 	}
 	if fn.Signature.Recv() != nil && len(fn.Params) > 0 {
 		fr.names["self"] = nameEntry{V: fr.env[fn.Params[0]], T: fn.Params[0].Type()}
@@ -2319,7 +2321,8 @@ func notInSet(env *SpecEnv, o string, at []Expr) string {
 		case Sc:
 			ne = append(ne, sNot(sEq(o, x.T)))
 		case SliceV:
-			ne = append(ne, sNot(sEq(o, x.Base)))
+			// the nil slice (base 0) has no elements: naming it permits no change
+			ne = append(ne, sOr(sNot(sEq(o, x.Base)), sEq(x.Base, "0")))
 		case LocV:
 			ne = append(ne, sNot(sEq(o, x.Obj)))
 		default:
